@@ -72,7 +72,7 @@ def run_pipeline(ctx):
         if s in seen:
             continue
         seen.add(s)
-        steps = [dict(op=y['ev'], r=y.get('r', ''), v=y.get('v', []), how=y.get('how', ''), a=y.get('a', ''), b=y.get('b', ''), out=y.get('out', ''), k=y.get('k', 0), order=y.get('order', 0), chunk=y.get('chunk', 0))
+        steps = [dict(op=y['ev'], r=y.get('r', ''), v=y.get('v', []), how=y.get('how', ''), a=y.get('a', ''), b=y.get('b', ''), out=y.get('out', ''), k=y.get('k', 0), order=y.get('order', 0), chunk=y.get('chunk', 0), p=y.get('p', 0), m=y.get('m', 0))
                  for y in byprog[e['prog']] if y['ev'] != 'new']
         ctx.violation(describe(e) + " after " + ",".join(prior), dict(family='pipeline', program=steps, event=e), sig=s)
 
